@@ -56,7 +56,7 @@ def run_case(seed, params=None):
     nitems = rng.randint(8, 40)
     arr = rng.choice(("regular", "bursty", "irregular", "saturating"))
     cons = rng.choice(("eager", "eager", "short_stalls", "long_stalls", "repeated", "stall_on_entry")) if not params.get("eager") else "eager"
-    aligned = bool(params.get("aligned")) or rng.random() < 0.25
+    aligned = bool(params.get("aligned")) or rng.random() < 0.4
     if aligned:
         arr = "aligned"
         cons = "aligned"
@@ -72,7 +72,8 @@ def run_case(seed, params=None):
             cv.put(tok, it)
             H.log("p", "put", it.id, env.now)
             if arr == "aligned":
-                g = s * rng.choice((0, 1, 1, 2, 3, 5, int(round(T / s))))
+                Tn = int(round(T / s))
+                g = s * rng.choice((0, 1, 1, 2, 3, 5, Tn, max(1, Tn - 1), Tn + 1, max(1, Tn - 2)))
             elif arr == "regular":
                 g = max(s, 1.0)
             elif arr == "bursty":
